@@ -559,6 +559,19 @@ class NN:
             return self._accum_space(q, upd, c[1], c[2])
         if is_call(c, "builtins.filter") and len(c[2]) == 2:
             return self.coll_space(q, c[2][1])
+        if is_call(c, "itertools.chain.from_iterable") and len(c[2]) == 1:
+            # the union of the member collections: members of a comprehension whose element is a collection of positions
+            inner = strip(c[2][0])
+            if head(inner) == "comp" and inner[1] in ("gen", "list"):
+                return self.coll_space(q, inner[2])
+            return None
+        if is_mcall(c, "get") and 1 <= len(c[2]) <= 2 and not c[3]:
+            # D.get(key, ()) : the position list filed under key, or nothing
+            dflt = strip(c[2][1]) if len(c[2]) == 2 else NONE
+            if dflt == NONE or (head(dflt) in ("tuple", "list", "set") and not dflt[1]):
+                mi = self.map_info(q, strip(c[1])[1])
+                return mi["space"] if mi else None
+            return None
         if is_call(c, "builtins.list") or is_call(c, "builtins.set") or is_call(c, "builtins.sorted") or is_call(c, "builtins.tuple"):
             return self.coll_space(q, c[2][0]) if c[2] else None
         return None
@@ -721,15 +734,39 @@ class NN:
             for trip, kind, extra_guards, extra_loops in cands:
                 base = [(g, pol) for g, pol in e.ctx.guards if not (pol and strip_all(g) in asserted)]
                 claims = [(g, pol) for g, pol in e.ctx.guards if pol and strip_all(g) in asserted]
+                gm = lambda t: self._get_as_subscript(q, t)
                 for d_term, guards in self._distance_variants(trip[2], base + extra_guards):
-                    g2 = self.fold_guards(guards, m, q)
+                    g2 = self.fold_guards([(gm(g), pol) for g, pol in guards], m, q)
                     if g2 is None:
                         continue
-                    loops = [(l, fold(s.loops[l].iterable, m)) for l in e.ctx.loops] + [(None, fold(x, m)) for _, x in extra_loops]
-                    site = Site(q, e.node, fold(trip[0], m), fold(trip[1], m), fold(d_term, m), g2, loops, kind, e["old"])
-                    site.extra["asserted"] = self.fold_guards(claims, m) or []
+                    loops = [(l, fold(gm(s.loops[l].iterable), m)) for l in e.ctx.loops] + [(None, fold(gm(x), m)) for _, x in extra_loops]
+                    site = Site(q, e.node, fold(gm(trip[0]), m), fold(gm(trip[1]), m), fold(gm(d_term), m), g2, loops, kind, e["old"])
+                    site.extra["asserted"] = self.fold_guards([(gm(g), pol) for g, pol in claims], m) or []
                     out.append(site)
         return out
+
+    def _get_as_subscript(self, q, t):
+        """For a dictionary of positions D:  D.get(k) [is None]  reads as  D[k] [k not in D]."""
+        from .rules import rewrite as _rw
+
+        def is_map_get(x):
+            x = strip(x)
+            if is_mcall(x, "get") and not x[3] and (len(x[2]) == 1 or (len(x[2]) == 2 and is_const(strip(x[2][1]), None))):
+                return self.map_info(q, strip(x[1])[1]) is not None
+            return False
+
+        def rw(x):
+            if head(x) == "cmp" and x[1] in ("is", "isnot", "==", "!=") and is_const(strip(x[3]), None) and is_map_get(x[2]):
+                g_ = strip(x[2])
+                return ("cmp", "notin" if x[1] in ("is", "==") else "in", g_[2][0], strip(g_[1])[1])
+            return x
+
+        def rw2(x):
+            if is_map_get(x):
+                g_ = strip(x)
+                return ("sub", strip(g_[1])[1], g_[2][0])
+            return x
+        return _rw(_rw(strip_all(t), rw), rw2)
 
     def _distance_variants(self, d, guards):
         """A distance obtained from a helper introduced after the rules were validated (``dist = _helper(a, b, ...)`` returning None for
